@@ -149,6 +149,32 @@ theorem C02_retained_tainted_counterexample :
   · simp [request, run, runE, spiralSys, lookup, store, markSpiral, purge, St.init, Sys.slot]
   all_goals simp [den, denE, spiralSys, lookup]
 
+/-- What a spiral cut marks (`invalidate_spiral_variables`), for all systems: when `v` is requested
+    at a new period while `max_spiral_loops` frames of `v` are already on the stack, the default is
+    substituted (tainted, not stored) and the frames marked for deletion are the requested node and
+    the most recent frames of the stack down to, and including, the `max_spiral_loops`-th earlier
+    frame of `v` — a prefix `seg` of the stack that holds exactly that many frames of `v` and ends
+    with one.  The OLDER frames (`older`) are not marked by this cut: they complete with a value
+    derived from the substituted default and keep it (finding F-C02b, kind (i) of the taint origin). -/
+theorem C02_spiral_marks_segment (sys : Sys P) (hm : sys.markAll = false) (n : Nat) (s : St P) (v : Nat) (p : P)
+    (hl : lookup s.cache (sys.slot (v, p)) = none) (hin : sys.input v p = none) (hns : (v, p) ∉ s.stack)
+    (hmsl : 1 ≤ sys.msl) (hsp : sys.msl ≤ (s.stack.filter (fun k => k.1 = v)).length) :
+    ∃ seg older, s.stack = seg ++ older ∧
+      run sys (n+1) s v p = some (.ok (sys.dflt v), true, { s with inval := (v, p) :: seg ++ s.inval }) ∧
+      (seg.filter (fun k => k.1 = v)).length = sys.msl ∧ ∃ k, seg.getLast? = some k ∧ k.1 = v := by
+  obtain ⟨older, hold⟩ := markSpiral_prefix v s.stack sys.msl
+  obtain ⟨h1, h2⟩ := markSpiral_count v s.stack sys.msl hmsl hsp
+  refine ⟨markSpiral v sys.msl s.stack, older, hold.symm, ?_, h1, h2⟩
+  simp [run, hl, hin, hns, hsp, hm]
+
+
+/-- the cut of the counterexample: `v0@3` is requested while `v0@4` (its first earlier frame) and,
+    older, `v1@4` are on the stack: `v0@3` and `v0@4` are marked, `v1@4` is not -/
+example : ∃ seg older, ([(0, 4), (1, 4)] : List (Node Nat)) = seg ++ older ∧ older = [(1, 4)] ∧
+    run spiralSys 5 ⟨[], [(0, 4), (1, 4)], []⟩ 0 3 =
+      some (.ok [0], true, ⟨[], [(0, 4), (1, 4)], (0, 3) :: seg ++ []⟩) :=
+  ⟨[(0, 4)], [(1, 4)], rfl, rfl, by simp [run, spiralSys, lookup, markSpiral, Sys.slot]⟩
+
 /-- What-if (candidate repair of F-C02b, `Sys.markAll = true`: a spiral marks every frame on the
     stack): for ALL rule systems, any spiral limit and any sequence of top-level requests,
     successful or not, NO retained entry is tainted, and every retained value is the meaning of
@@ -172,5 +198,70 @@ example : ∃ s', request { spiralSys with markAll := true } 10 St.init (1, 4) =
     lookup s'.cache (1, 4) = none ∧ lookup s'.cache (0, 4) = none := by
   refine ⟨⟨[], [], []⟩, ?_, rfl, rfl⟩
   simp [request, run, runE, spiralSys, lookup, store, markSpiral, purge, St.init, Sys.slot]
+
+
+/-! ## the other entry points between the requests: `get_array`, `delete_arrays` -/
+
+/-- Deleting stored values (any of them: `delete_arrays` of one period, of all periods contained in
+    a period, of every period) keeps the store consistent: what remains is still nothing but
+    untainted meanings. -/
+theorem C02_delete_keeps_consistency (sys : Sys P) (c : Cache P) (f : Node P → Bool) :
+    (Cons sys c → Cons sys (c.filter (fun e => f e.1))) ∧
+    (GClean sys c → GClean sys (c.filter (fun e => f e.1))) := by
+  constructor
+  · intro hc v p x g h
+    rw [lookup_filter_key] at h
+    split at h
+    · exact hc v p x g h
+    · cases h
+  · intro hc v p x h
+    rw [lookup_filter_key] at h
+    split at h
+    · exact hc v p x h
+    · cases h
+
+/-- Hence (no self-dependent variable) a value deleted between two requests is simply computed
+    again: after ANY deletion of computed values, from any reachable state, a request returns its
+    meaning — the same value as before the deletion, and as on a fresh simulation. -/
+theorem C02_delete_then_request (sys : Sys P) (hk : SlotCoherent sys) (rk : Nat → Nat) (hr : VarRanked sys rk) (hmsl : 1 ≤ sys.msl)
+    (n : Nat) (s : St P) (hc : Cons sys s.cache) (hs : s.stack = []) (hi : s.inval = []) (f : Node P → Bool)
+    (v : Nat) (p : P) (r : Res) (hd : den sys n v p = some r) :
+    ∃ s', request sys n { s with cache := s.cache.filter (fun e => f e.1) } (v, p) = some (r, false, s') ∧
+      Cons sys s'.cache ∧ s'.stack = [] ∧ s'.inval = [] :=
+  C01_calculate_eq_den sys hk rk hr hmsl n { s with cache := s.cache.filter (fun e => f e.1) }
+    ((C02_delete_keeps_consistency sys s.cache f).1 hc) hs hi v p r hd
+
+/-- `delete_arrays(v, q)` of the model is such a deletion -/
+theorem C02_deleteCached_is_filter (d : RuleSys.Decl) (v : Nat) (q : Option Period) (c : Cache Period) :
+    ∃ f : Node Period → Bool, RuleSys.deleteCached d v q c = c.filter (fun e => f e.1) :=
+  ⟨fun k => !(k.1 = v && (match q with | none => true | some q => RuleSys.deletes (RuleSys.isEternalVar d v) q k.2)), rfl⟩
+
+/-- `get_array` never computes: from a consistent store it returns nothing, or the meaning of the
+    node (a computed value, an input, or a neutralised variable's default). -/
+theorem C02_get_array_is_meaning (sys : Sys Period) (s : St Period) (hc : Cons sys s.cache) (k : Node Period) (x : Val)
+    (h : RuleSys.getArray sys s k = some x) : ∃ n, den sys n k.1 k.2 = some (.ok x) := by
+  unfold RuleSys.getArray at h
+  split at h
+  · rename_i y g hy
+    cases h
+    exact (hc k.1 k.2 _ g hy).2
+  · exact ⟨1, by simp [den, h]⟩
+
+/-- a one-variable system over real periods, for the examples -/
+def RuleSys.MONTH1 : Period := ⟨.month, ⟨2018, 1, 1⟩, 1⟩
+def faultySysC02 : Sys Period where
+  formula _ _ := none
+  input _ _ := none
+  dflt _ := [0]
+  post _ x := x
+  f1 _ x := x
+  f2 _ x _ := x
+  armed _ := false
+  msl := 1
+  noStore _ := false
+  ckey _ p := p
+
+example : RuleSys.getArray (faultySysC02) ⟨[((1, RuleSys.MONTH1), ([11], false))], [], []⟩ (1, RuleSys.MONTH1) = some [11] := by
+  simp [RuleSys.getArray, lookup, Sys.slot, faultySysC02]
 
 end OFCore
